@@ -500,6 +500,61 @@ static int d_set_main_sched_basic_joined(void **h)
     *h = rc == ABT_SUCCESS ? (void *)X.jxs : POISON;
     return rc;
 }
+/* a stacked scheduler handed to a user-defined pool: its ULT gets a unit of that pool (create_unit
+ * + a map entry).  When that fails the scheduler is still the caller's: usable and to be freed
+ * by the caller, whether it is automatic or not. */
+static ABT_pool addsched_own_pool;
+static int addsched_automatic;
+static int d_pool_add_sched_upool(void **h)
+{
+    ABT_sched sched;
+    ABT_sched_config cfg;
+    addsched_automatic = !addsched_automatic;
+    int rc = ABT_pool_create_basic(ABT_POOL_FIFO, ABT_POOL_ACCESS_MPMC, ABT_TRUE, &addsched_own_pool);
+    if (rc != ABT_SUCCESS)
+        return rc;
+    rc = ABT_sched_config_create(&cfg, ABT_sched_config_automatic, addsched_automatic ? ABT_TRUE : ABT_FALSE, ABT_sched_config_var_end);
+    if (rc != ABT_SUCCESS) {
+        ABT_OK(ABT_pool_free(&addsched_own_pool));
+        return rc;
+    }
+    rc = ABT_sched_create_basic(ABT_SCHED_BASIC, 1, &addsched_own_pool, cfg, &sched);
+    ABT_OK(ABT_sched_config_free(&cfg));
+    if (rc != ABT_SUCCESS) {
+        ABT_OK(ABT_pool_free(&addsched_own_pool));
+        return rc;
+    }
+    rc = ABT_pool_add_sched(UP.pool, sched);
+    if (rc != ABT_SUCCESS) {
+        /* still ours: it can be asked about itself and freed (its automatic pool goes with it) */
+        int np = -1;
+        ABT_OK(ABT_sched_get_num_pools(sched, &np));
+        SIM_CHECK(np == 1, "fault:state-changed", "the scheduler that ABT_pool_add_sched refused reports %d pools", np);
+        ABT_OK(ABT_sched_free(&sched));
+        return rc;
+    }
+    *h = (void *)sched;
+    return ABT_SUCCESS;
+}
+static void u_pool_add_sched_upool(void **h)
+{
+    /* the scheduler runs on the user pool's stream, finds its own pool empty and ends; an
+     * automatic one is released by the runtime, the other one by us */
+    ABT_sched sched = (ABT_sched)*h;
+    while (UP.creates != UP.frees)
+        ABT_OK(ABT_thread_yield());
+    if (!addsched_automatic) {
+        /* the runtime marks the scheduler as unused when it releases the scheduler's ULT, a few
+         * steps after that ULT's unit was given back: until then ABT_sched_free refuses */
+        for (;;) {
+            int rc = ABT_sched_free(&sched);
+            if (rc == ABT_SUCCESS)
+                break;
+            SIM_CHECK(rc == ABT_ERR_SCHED, "api-error", "ABT_sched_free of the finished stacked scheduler returned %d", rc);
+            ABT_OK(ABT_thread_yield());
+        }
+    }
+}
 static int d_pool_create_user(void **h)
 {
     ABT_pool_user_def def;
@@ -772,6 +827,7 @@ static const op18 OPS[] = {
     { "ABT_thread_set_associated_pool(user_pool)", d_set_assoc_upool, u_set_assoc_upool, POISON, 2, 2 },
     { "ABT_xstream_set_main_sched(joined,user_pool)", d_set_main_sched_joined, u_set_main_sched_joined, POISON, 2, 2 },
     { "ABT_xstream_set_main_sched_basic(joined,user_pool)", d_set_main_sched_basic_joined, u_set_main_sched_joined, POISON, 2, 2 },
+    { "ABT_pool_add_sched(user_pool)", d_pool_add_sched_upool, u_pool_add_sched_upool, POISON, 0, 2 },
     { "ABT_pool_create(user_def)", d_pool_create_user, u_pool, ABT_POOL_NULL, 0, 0 },
     { "ABT_sched_create(user_def)", d_sched_create_user, u_sched, ABT_SCHED_NULL, 0, 0 },
     { "ABT_sched_create(user_def, null pools)", d_sched_create_user_nullpools, u_sched, ABT_SCHED_NULL, 0, 0 },
